@@ -241,6 +241,7 @@ def main():
         tok = d.create(mode=modes[base_mode])
         reuse = MorphemeList.empty(d)
         split_out = MorphemeList.empty(d)
+        other_list = d.create(mode=modes[rng.choice("ABC")]).tokenize(rng.choice(texts))
         stale = []
         for op in range(25):
             out["history_ops"] += 1
@@ -257,15 +258,34 @@ def main():
                     tok.tokenize("あ" * 20000, mode=modes[rng.choice("ABC")])
                 elif k == 3 and len(reuse):
                     m = reuse[rng.randrange(len(reuse))]
-                    m.split(modes[rng.choice("AB")], out=split_out)
-                    m.split(modes[rng.choice("AB")], out=split_out, add_single=True)
+                    # split results written into a list that may hold / have held the result of another text: whatever is
+                    # returned must tile the morpheme that was split (with add_single=False an empty list is allowed)
+                    for kw in ({}, {"add_single": True}, {"add_single": False}):
+                        target = rng.choice([split_out, other_list])
+                        r = m.split(modes[rng.choice("AB")], out=target, **kw)
+                        try:
+                            parts = [(x.raw_surface(), x.begin(), x.end()) for x in r]
+                        except (KeyboardInterrupt, SystemExit):
+                            raise
+                        except BaseException as ex:  # noqa
+                            mismatch("split", "split(out=<reused list>, %r) of %r returns morphemes whose surface cannot be read: %r" % (kw, m.raw_surface(), ex), {})
+                            break
+                        out["split_out_checks"] = out.get("split_out_checks", 0) + 1
+                        if parts or kw.get("add_single", True):
+                            ok = "".join(p[0] for p in parts) == m.raw_surface() and parts and parts[0][1] == m.begin() and parts[-1][2] == m.end()
+                            if not ok:
+                                mismatch("split", "split(out=<reused list>, %r) of %r [%d:%d] returns %r" % (kw, m.raw_surface(), m.begin(), m.end(), parts[:6]), {})
+                                break
+                    # refill the other list with the result of another text
+                    other_list = d.create(mode=modes[rng.choice("ABC")]).tokenize(rng.choice(texts))
                 elif k == 4 and stale:
                     m = rng.choice(stale)
                     (m.surface(), m.begin(), m.end(), m.part_of_speech(), m.normalized_form(), m.word_id())
                 elif k == 5:
                     fs = set(rng.sample(all_fields, rng.randrange(len(all_fields) + 1)))
                     t2 = d.create(mode=modes[rng.choice("ABC")], fields=fs)
-                    for m in t2.tokenize(rng.choice(texts)):
+                    # (sometimes into the reused list, which then carries this narrow field request)
+                    for m in (t2.tokenize(rng.choice(texts), out=reuse) if rng.random() < 0.5 else t2.tokenize(rng.choice(texts))):
                         (m.surface(), m.dictionary_form(), m.reading_form(), m.normalized_form(), m.part_of_speech(), m.synonym_group_ids())
                 elif k == 6:
                     t3 = d.create(mode=modes[rng.choice("ABC")], projection=rng.choice(projections))
@@ -278,6 +298,15 @@ def main():
                         mismatch("history", "tokenize('') into a reused list leaves %d morphemes in it" % len(reuse), {})
                 else:
                     d.lookup(rng.choice(texts)[:3], out=reuse)
+                    # morphemes found by lookup in a reused list split like those found in a new list
+                    q = rng.choice(texts)[:rng.randrange(1, 5)]
+                    la = d.lookup(q, out=reuse)
+                    lb = d.lookup(q)
+                    va = [[(x.raw_surface(), x.normalized_form(), x.reading_form(), x.part_of_speech_id()) for x in m.split(modes[sm])] for m in la for sm in "AB"]
+                    vb = [[(x.raw_surface(), x.normalized_form(), x.reading_form(), x.part_of_speech_id()) for x in m.split(modes[sm])] for m in lb for sm in "AB"]
+                    out["lookup_split_checks"] = out.get("lookup_split_checks", 0) + 1
+                    if va != vb:
+                        mismatch("lookup", "lookup(%r) into a reused list: the found words split into %r, found in a new list they split into %r" % (q, va[:3], vb[:3]), {})
                     r0 = d.lookup("", out=reuse)
                     if len(r0) != 0 or len(reuse) != 0:
                         mismatch("lookup", "lookup('') into a reused list leaves %d morphemes in it" % len(reuse), {})
